@@ -665,7 +665,8 @@ struct WkdScenario : Scenario {
         int tot = 0; for (int i = 0; i < 14; i++) tot += wts[i];
         p.ops.push_back({"KEYGEN", {(int64_t) (r.next() >> 1), r.chance(1, 6), r.chance(1, 4)}, directives(r, l)});
         static const char* sfl[] = {"storm8:3", "tupler", "tuplerp1", "tuple:r-1", "tuple:1", "tuple:2", "digit:xm1", "storm8:9"};
-        auto maybe_fault = [&](Op& o) { if (r.chance(1, 6)) o.s.push_back(sfl[r.below(8)]); };
+        // (a scalar from the GLV exceptional-addition family as the drawn value: every G1 multiplication by it meets a doubling or a cancellation part-way)
+        auto maybe_fault = [&](Op& o) { if (r.chance(1, 6)) { if (r.chance(1, 6)) o.s.push_back("tuple:" + glv_code(r)); else if (o.kind == "SIGN" && r.chance(1, 5)) o.s.push_back("tuple:0"); else o.s.push_back(sfl[r.below(8)]); } };
         for (int n = 1; n < nops; n++) {
             int x = (int) r.below((uint64_t) tot), k = 0; while (x >= wts[k]) { x -= wts[k]; k++; }
             int64_t ss = (int64_t) (r.next() >> 1); std::string kind = kinds[k];
